@@ -177,6 +177,9 @@ def check_C01(tier, seed):
     dwd = core.workdir("C01_design")
     ffiles = gen_files(dwd, "gen-rel", ["--set", "fused-directed", "--seed", 1, "--n", 100], core.NCPU, "fd")
     fsem = [f + ".sem" for f in ffiles]
+    # the same family on the implementation: every program of the fused-shape pairs (local op literal and literal op local,
+    # every operator, operands equal / one apart / of another type) as the real eval answered it, against NlSem
+    sem_files_leg(o, "fused-shapes", fsem, dwd)
     # two of 32 slices of the control-flow template set (the deviations of the translation scheme need nested loops
     # with `volgende` and branches that do not end in an expression to show)
     tcs = []
@@ -413,12 +416,14 @@ def sem_files_leg(o, name, files, wd, spec="TV_Sem.tla", cfg="TV_Sem.cfg", timeo
     results = run_tv_shards(files, spec, cfg, wd, timeout=timeout)
     counts = {}
     nrec = 0
+    nshown = 0
     agreeing = []
     for f, r in zip(files, results):
         o.add_tlc(r)
         recs = {x["id"]: x for x in core.read_ndjson(f)}
         srcs = {x["id"]: x["text"] for x in core.read_ndjson(f + ".src")} if os.path.exists(f + ".src") else {}
         nrec += len(recs)
+        nshown += sum(1 for x in recs.values() if isinstance(x.get("obs"), dict) and "shown" in x["obs"])
         if len(r.verdicts) != len(recs):
             raise ToolError(f"{name}: {len(r.verdicts)} verdicts for {len(recs)} records in {f}")
         for v in r.verdicts:
@@ -436,6 +441,8 @@ def sem_files_leg(o, name, files, wd, spec="TV_Sem.tla", cfg="TV_Sem.cfg", timeo
             if v["class"] != "skip":
                 o.traces += 1
     o.legs.append({"leg": name, "records": nrec, "verdicts": counts, "wall_s": round(time.time() - t0, 1)})
+    if nshown:
+        o.legs[-1]["lines_also_typed_into_the_executable_prompt"] = nshown
     return agreeing     # records the specification accepted (the sensitivity self-tests corrupt these, never a rejected one)
 
 
@@ -757,7 +764,7 @@ def check_C12(tier, seed):
 GC_ACTIONS = ("Alloc", "Link", "Unroot", "Collect", "Untrace", "Drop", "CallerFree")
 C03_CLASSES = {"lost", "twice", "markidx", "dead-deref", "double-free", "reclaimed", "root-not-passed",
                "mark-index", "two-owners"}
-C04_CLASSES = {"leak", "unmanaged", "kept-garbage", "leak-managed", "leak-lost", "double-free", "twice"}
+C04_CLASSES = {"leak", "leak-early", "unmanaged", "kept-garbage", "leak-managed", "leak-lost", "double-free", "twice"}
 
 
 def gc_model_leg(o, tier):
@@ -855,6 +862,32 @@ def gc_replay_leg(o, classes, tier, seed):
         rejected = sum(1 for v in rr.verdicts if "lost" in v.get("classes", []))
         if tried != rejected:
             raise ToolError(f"replay: sensitivity self-test failed ({rejected}/{tried})")
+    # ... and an object the design releases at a COLLECTION that the collector is reported to have kept must be
+    # flagged "kept-garbage" (not the end-of-run "leak" that is a known finding)
+    bad2 = []
+    for r_ in agreeing_like:
+        if len(bad2) >= 6:
+            break
+        for j, e in enumerate(r_["ops"]):
+            if e["op"][0] == "collect" and j > 0:
+                gone = [x for x in r_["ops"][j - 1]["live"] if x not in e["live"]]
+                if gone and all(x not in r_["obs"][j]["live"] for x in gone):
+                    c = copy.deepcopy(r_)
+                    for jj in range(j, len(c["obs"])):
+                        if gone[0] not in c["obs"][jj]["live"]:
+                            c["obs"][jj]["live"] = sorted(c["obs"][jj]["live"] + [gone[0]])
+                            c["obs"][jj]["managed"] = sorted(c["obs"][jj]["managed"] + [gone[0]])
+                    bad2.append(c)
+                    break
+    if bad2:
+        bf2 = os.path.join(wd, "corrupt_kept.ndjson")
+        core.write_ndjson(bf2, bad2)
+        rr2 = core.tlc_or_die("TV_GCReplay.tla", "TV_GCReplay.cfg", env={"RECS": bf2}, workdir_=wd)
+        rej2 = sum(1 for v in rr2.verdicts if "kept-garbage" in v.get("classes", []))
+        if rej2 != len(bad2):
+            raise ToolError(f"replay: sensitivity self-test (kept garbage) failed ({rej2}/{len(bad2)})")
+        tried += len(bad2)
+        rejected += rej2
     o.legs.append({"leg": "replay", "behaviours": nrec, "classes_seen": counts, "sensitivity_tried": tried,
                    "sensitivity_rejected": rejected, "wall_s": round(time.time() - t0, 1)})
 
@@ -1603,14 +1636,17 @@ def check_C17(tier, seed):
         "functions do not survive the line that defines them (the repository's own ignored test documents that); generated sessions use a function only inside its defining line",
         "a line cut short after k instructions: which assignments completed is not observable directly; spec/NlSession.tla keeps the set of possible persistent states and later lines narrow it",
     ]
+    # every session is also typed into the real executable's prompt (no hooks): what it wrote for each line is part of
+    # the line's record (`shown`) and is decided by TV_Sem's prompt rule together with the line's value
+    nlbin = core.build_binary()
     # all sessions of up to three lines over the 12-line alphabet
     wd = core.workdir("C17_alphabet")
-    files = gen_files(wd, "gen-session-alphabet", [], core.NCPU, "al")
+    files = gen_files(wd, "gen-session-alphabet", ["--bin", nlbin], core.NCPU, "al")
     sem_files_leg(o, "alphabet-sessions", files, wd)
     # all sessions of up to three lines over a second alphabet of ten lines about heap values: globals that hold them,
     # aliases between globals, values stored into an array of an earlier line, collections in between
     wdh = core.workdir("C17_heap_alphabet")
-    hfiles = gen_files(wdh, "gen-session-alphabet", ["--set", "heap"], core.NCPU, "ah")
+    hfiles = gen_files(wdh, "gen-session-alphabet", ["--set", "heap", "--bin", nlbin], core.NCPU, "ah")
     sem_files_leg(o, "heap-alphabet-sessions", hfiles, wdh)
     # random sessions of up to 12 lines with failing lines of every class
     wd2 = core.workdir("C17_random")
@@ -1619,10 +1655,11 @@ def check_C17(tier, seed):
 
     def gen(i):
         f = os.path.join(wd2, f"s{i}.ndjson")
-        core.run_nlh(["gen-session", "--seed", seed * 19 + i, "--n", n // shards, "--first-id", i * 1000000 + 1, "--out", f])
+        core.run_nlh(["gen-session", "--seed", seed * 19 + i, "--n", n // shards, "--first-id", i * 1000000 + 1, "--out", f, "--bin", nlbin])
         return f
     sfiles = core.parallel(gen, list(range(shards)))
-    recs = sem_files_leg(o, "random-sessions", sfiles, wd2)[:80]
+    allrecs = sem_files_leg(o, "random-sessions", sfiles, wd2)
+    recs = allrecs[:80]
     # sensitivity of the session legs
     rng = random.Random(seed)
     bad = [corrupt_obs(r, rng) for r in rng.sample(recs, min(10, len(recs)))]
@@ -1634,6 +1671,37 @@ def check_C17(tier, seed):
         raise ToolError(f"C17: sensitivity self-test failed: {len(acc)} corrupted line observations accepted")
     o.legs[-1]["sensitivity_tried"] = len(bad)
     o.legs[-1]["sensitivity_rejected"] = len(bad) - len(acc)
+    # ... and of the prompt rule: one character of what the executable wrote is changed / the value line is dropped
+    nulls = [r for r in allrecs if r["obs"].get("class") == "Value" and r["obs"].get("shown") == []][:12]
+    shown = [r for r in allrecs if r["obs"].get("shown")][:24]
+    if not shown:
+        raise ToolError("C17: no session line was bound to the executable's prompt")
+    # (only lines whose value the documentation fixes are decided by the prompt rule: keep those)
+    cf = os.path.join(wd2, "prompt_candidates.ndjson")
+    core.write_ndjson(cf, shown + nulls)
+    rc_ = core.tlc_or_die("TV_Sem.tla", "TV_Sem.cfg", env={"RECS": cf}, workdir_=wd2)
+    decided = {v["id"] for v in rc_.verdicts if v["class"] == "agree" and v["rule"] in ("value", "error")}
+    shown = [r for r in shown if r["id"] in decided]
+    badp = []
+    for k, r_ in enumerate(shown[:8]):
+        c = copy.deepcopy(r_)
+        if k % 2:
+            c["obs"]["shown"][0] += 1
+        else:
+            c["obs"]["shown"] = c["obs"]["shown"][:-1]
+        badp.append(c)
+    for r_ in [r for r in nulls if r["id"] in decided][:2]:
+        c = copy.deepcopy(r_)
+        c["obs"]["shown"] = [110, 117, 108, 108, 10]          # a prompt that spells out the null value
+        badp.append(c)
+    bfp = os.path.join(wd2, "corrupt_prompt.ndjson")
+    core.write_ndjson(bfp, badp)
+    rp = core.tlc_or_die("TV_Sem.tla", "TV_Sem.cfg", env={"RECS": bfp}, workdir_=wd2)
+    accp = [v for v in rp.verdicts if v["class"] != "mismatch" or v["rule"] != "prompt"]
+    if accp:
+        raise ToolError(f"C17: prompt sensitivity self-test failed: {len(accp)} of {len(badp)} corrupted transcripts not rejected by the prompt rule")
+    o.legs[-1]["prompt_sensitivity_tried"] = len(badp)
+    o.legs[-1]["prompt_sensitivity_rejected"] = len(badp)
     # lines cut short after k instructions, for every k (NlSession)
     t0 = time.time()
     wd3 = core.workdir("C17_abort")
